@@ -8,12 +8,16 @@ RULES = {
 
 def run(ctx):
     astar_checks.run_family(ctx, 'c10', 'P_C10')
+    # the same statements for the DETERMINISTIC twin of parse_sentence (libstdc++ heap, exact push order): coq/P_DSearch.v; its tie
+    # to the real pop traces (ties included) is exercised by the C11 check
+    ctx.build(['P_DSearch.vo'])
+    ctx.theorems('P_DSearch')
     ctx.trusted += ['implementation-level model coq/AStarImpl.v (tied to parsing.h by trace validation: every pop, its in/out score, span, head, the status, the goal derivations and scores of each run are accepted by the model inside coqc)',
                     'harness/driver.cpp + depccg_verif_rt.py (ctypes bridge, compiled against the repository header on every run) and the DEPCCG_VERIF pop hook',
                     'float32 arithmetic is exact on the dyadic score grid used (scores k/8, |k| small); rounding on arbitrary reals is not modelled']
     return ctx.finish(level='proof', rule=RULES['01'],
                       assumptions=['exact arithmetic: theorems are about integer-scaled scores; float32 rounding of arbitrary log-probabilities is outside the model',
-                                   'libstdc++ tie-breaking among equal priorities is abstracted: theorems hold for every maximal-priority pop, the hook supplies the actual order',
+                                   'theorems hold for every maximal-priority pop (the hook supplies the actual order); P_DSearch.v instantiates them for the one run libstdc++\'s heap really takes (deterministic twin, tied to the real traces in the C11 check)',
                                    'theorems with dedup (1-best) need a head-uniform grammar and unary penalty >= 0'])
 
 
